@@ -74,6 +74,16 @@ def run(chk, prog):
         if not ok:
             chk.finding("validate-then-swap", sr.key, "late-error", "", w[0].where(),
                         "set_rules can still fail after it started replacing the rule list: a rejected reload leaves a partially applied list")
+        # ... and success means the list was replaced: every Ok return of set_rules passes the write (an early `return Ok(())` for a list
+        # that "looks the same" leaves the old list in force while the caller is told the new one is)
+        from ..flow import result_blocks as _rb15
+        oks15 = _rb15(sr, "Ok")
+        swapped = bool(oks15) and must_pass(sr, [0], [w[0].bb], oks15)
+        chk.instance("validate-then-swap", w[0].where(), "every successful return of set_rules has replaced the list", swapped)
+        if not swapped:
+            chk.finding("validate-then-swap", sr.key, "success-without-swap", "", w[0].where(),
+                        "set_rules can return Ok without replacing the rule list: the caller (and the API client) is told the posted list is in force "
+                        "while requests are still decided by the old one")
         # every fallible step precedes the write: Rule::init and the target lookup dominate it
         inits = [c for g in [sr] + prog.children(sr) for c in g.calls if re.search(r"rules::Rule::init$", c.name or "")]
         ok = bool(inits)
